@@ -30,6 +30,11 @@ def H(*parts):
     return int.from_bytes(d[:8], "big") >> 1
 
 
+def hz_runs(table, tier):
+    """Number of runs of a tier (VERIF_RUNS overrides, for calibration only)."""
+    return int(os.environ.get("VERIF_RUNS", 0)) or table[tier]
+
+
 def jobs():
     return max(1, int(os.environ.get("VERIF_JOBS", os.cpu_count() or 4)))
 
